@@ -148,7 +148,11 @@ func TestC12(t *testing.T) {
 		return evalC12(k)
 	})
 	c.Check(t, func(rt *rapid.T) {
-		p := dsl.GenProgram(rt, dsl.GenCfg{MaxPackets: 5, Docs: true, Avoid: avoid})
+		p := dsl.GenProgram(rt, dsl.GenCfg{MaxPackets: 5, Docs: true, Avoid: avoid, Shapes: true, AnyOrder: true})
+		// the same inline object declared in two packets is legal and keeps per-name state busy
+		if rapid.IntRange(0, 3).Draw(rt, "share_inline") == 0 {
+			dsl.ShareInline(rt, p)
+		}
 		lay := dsl.RandLayout{T: rt, Label: "lay"}
 		text, _ := dsl.Render(p, dsl.Plain{}, lay, dsl.RenderOpts{NoPadRewrites: true})
 		k := c12Case{Text: text}
